@@ -422,6 +422,16 @@ def r6_streams_and_text_ranges(ctx):
 from ..through_time import make_rule as _mk_tt
 _through_time = _mk_tt("C03")
 
+def _selection_tables(ctx):
+    from .c04 import r2_aligned_stores
+    r2_aligned_stores(ctx)   # the bytes written for a selection / concatenation come from these tables
+def _lazy_concatenate(ctx):
+    from .c05 import r1_aligned_views
+    r1_aligned_views(ctx)    # assigned columns survive np.concatenate of lazy tables (the writer serialises the merged table)
+def _shared_tables_not_written(ctx):
+    from .c20 import r3_self_array_writes, IO_TABLE_MODULES
+    r3_self_array_writes(ctx, IO_TABLE_MODULES)   # index tables are shared between a table and its selections: never written in place
+
 RULES = [
     ("C03-R1", r1_writer_exhaustive),
     ("C03-R2", r2_header_once),
@@ -430,4 +440,7 @@ RULES = [
     ("C03-R5", r5_mode_suffix_tables),
     ("C03-R6", r6_streams_and_text_ranges),
     ("C03-T1", _through_time),
+    ("C03-R7", _selection_tables),
+    ("C03-R8", _lazy_concatenate),
+    ("C03-R9", _shared_tables_not_written),
 ]
